@@ -31,6 +31,7 @@ REJECT = {
     "unbound-on-one-path": "def f(x):\n    if x > 0:\n        y = 1\n    else:\n        z = 2\n    return y\n",
     "return-then-code": "def f(x):\n    return x\n    x = 1\n",
     "nonliteral-float": "def f(x):\n    return float('nan')\n",
+    "raise-local-undeclared": "def f(x):\n    e = x\n    raise e\n",
     "dict-iteration": "def f(d):\n    for k in d:\n        return k\n    return 0\n",
     "with-unlisted-lock": "def f(x):\n    with lock:\n        y = x\n    return y\n",
     "kwonly-unlisted": "def f(x, *, k=1):\n    return x\n",
@@ -217,4 +218,124 @@ for name, (src, ok) in C17CASES.items():
     except tr.Untranslatable as e:
         print(f"rejected  {name:28s} {e.reason[:90]}" if not ok else f"NOT ACCEPTED {name}: {e}")
         bad += 1 if ok else 0
+# ---- C18 additions: isinstance-narrowing-by-match (spec 'isinstance_narrow'), string-keyed dict literals (spec 'str_dict_literal'),
+#      set literals, any()/all() over a set, isinstance(x, t) with a local class object (spec 'isinstance_dyn'), `is None` on a spec
+#      type (compares[("Is", T, "none")]), implicit `return None` into a spec type (coercions[("none", T)]), iteration over a spec
+#      type (spec 'iter'), function-level 'funcs' / 'builtins', x.a = e on a local object (spec 'setattrs' + entry 'local_objects'),
+#      rebinding calls (spec 'rebinding_calls').  Each case: (source, spec extras, entry extras, accepted?)
+_PV = tr.Nom("pyval", "pyval", "py_eqb")
+_PVX = dict(params=[("x", "x", _PV)], returns=_PV)
+_C18X = dict(isinstance_narrow={("pyval", "tuple"): ("view_tuple {0}", List(_PV)), ("pyval", "Box"): ("view_box {0}", tr.Nom("Box", "pyval"))},
+             attrs={("Box", "item"): ("{0}", _PV)}, str_dict_literal=dict(ty=_PV, value_ty=_PV, code="PDict [{items}]", item="(PStr {key}, {value})"),
+             coercions={("none", "pyval"): "PNone", (repr(List(_PV)), "pyval"): "PList {0}"})
+_NARROW = "def f(x):\n    if isinstance(x, tuple):\n        return {'t': [e for e in x]}\n    if isinstance(x, Box):\n        return {'b': x.item}\n"
+_SETATTR = "def f(x):\n    r = Obj()\n    r.a = x\n    return r\n"
+_OBJ = tr.Nom("Obj", "pyval")
+_SETX = dict(funcs={"Obj": dict(code="mk_obj", ty=_OBJ, params=[])}, setattrs={("Obj", "a"): ("set_a {0} {1}", _PV)}, coercions={("Obj", "pyval"): "{0}"})
+_REB = "def f(x):\n    b = Buf()\n    dump(obj=x, out=b)\n    return b\n"
+_BUF = tr.Nom("Buf", "pyval")
+_REBX = dict(funcs={"Buf": dict(code="buf0", ty=_BUF, params=[])}, coercions={("Buf", "pyval"): "{0}"},
+             rebinding_calls={"dump": dict(params=[("obj", _PV), ("out", _BUF)], target="out", code="buf_write {out} {obj}")})
+C18CASES = {
+    "isinstance-narrowing": (_NARROW, _C18X, _PVX, True),
+    "isinstance-narrowing-unlisted-class": (_NARROW.replace("Box", "Bag"), _C18X, _PVX, False),
+    "isinstance-narrowing-unlisted-attr": (_NARROW.replace("x.item", "x.other"), _C18X, _PVX, False),
+    "isinstance-without-spec": (_NARROW, {}, _PVX, False),
+    "str-dict-literal-without-spec": ("def f(x):\n    return {'a': x}\n", dict(coercions=_C18X["coercions"]), _PVX, False),
+    "str-dict-literal-repeated-key": ("def f(x):\n    return {'a': x, 'a': x}\n", _C18X, _PVX, False),
+    "dict-literal-nonstring-key": ("def f(x):\n    return {1: x}\n", _C18X, _PVX, False),
+    "dict-literal-unpacking": ("def f(x):\n    return {'a': x, **x}\n", _C18X, _PVX, False),
+    "implicit-return-none-by-coercion": ("def f(x):\n    if isinstance(x, tuple):\n        return x\n", _C18X, _PVX, True),
+    "implicit-return-none-without-coercion": ("def f(x):\n    if isinstance(x, tuple):\n        return x\n", dict(isinstance_narrow=_C18X["isinstance_narrow"], coercions={(repr(List(_PV)), "pyval"): "PList {0}"}), _PVX, False),
+    "set-literal": ("def f(x):\n    return x in {1, 2, 3}\n", {}, dict(params=[("x", "x", Z)], returns=BOOL), True),
+    "set-literal-mixed-types": ("def f(x):\n    return x in {1, 'a'}\n", {}, dict(params=[("x", "x", Z)], returns=BOOL), False),
+    "any-over-set": ("def f(x):\n    return any(x == t for t in {1, 2})\n", {}, dict(params=[("x", "x", Z)], returns=BOOL), True),
+    "for-over-set": ("def f(x):\n    acc = 0\n    for t in {1, 2}:\n        acc += t\n    return acc\n", {}, dict(params=[("x", "x", Z)], returns=Z), False),
+    "isinstance-dyn": ("def f(x):\n    return any(isinstance(x, t) for t in {A, B})\n",
+                       dict(consts={"A": ("CA", tr.Nom("type", "cls", "cls_eqb")), "B": ("CB", tr.Nom("type", "cls", "cls_eqb"))}, isinstance_dyn={("pyval", "type"): "is_instance {0} {1}"}),
+                       dict(params=[("x", "x", _PV)], returns=BOOL), True),
+    "isinstance-dyn-without-spec": ("def f(x):\n    return any(isinstance(x, t) for t in {A, B})\n",
+                                    dict(consts={"A": ("CA", tr.Nom("type", "cls", "cls_eqb")), "B": ("CB", tr.Nom("type", "cls", "cls_eqb"))}),
+                                    dict(params=[("x", "x", _PV)], returns=BOOL), False),
+    "is-none-by-spec": ("def f(x):\n    return x is None\n", dict(compares={("Is", "pyval", "none"): "is_none {0}"}), dict(params=[("x", "x", _PV)], returns=BOOL), True),
+    "iter-by-spec": ("def f(x):\n    return [e for e in x]\n", dict(iter={"pyval": ("pv_iter {0}", _PV, True)}, coercions=_C18X["coercions"]), _PVX, True),
+    "iter-without-spec": ("def f(x):\n    return [e for e in x]\n", dict(coercions=_C18X["coercions"]), _PVX, False),
+    "entry-funcs-override": ("def f(x):\n    return g(x)\n", dict(funcs={"g": dict(code="g1 {a}", ty=Z, params=[("a", Z)])}),
+                             dict(params=[("x", "x", Z)], returns=Z, funcs={"g": dict(code="g2 {a}", ty=Z, params=[("a", Z)])}), True),
+    "entry-builtins": ("def f(xs):\n    return len(list(xs))\n", dict(funcs={"list": dict(code="py_list {x}", ty=_PV, params=[("x", _PV)], partial=True)}),
+                       dict(params=[("xs", "xs", List(Z))], returns=Z, builtins=["list"]), True),
+    "spec-func-shadows-builtin": ("def f(xs):\n    return len(list(xs))\n", dict(funcs={"list": dict(code="py_list {x}", ty=_PV, params=[("x", _PV)], partial=True)}),
+                                  dict(params=[("xs", "xs", List(Z))], returns=Z), False),
+    "local-object-setattr": (_SETATTR, _SETX, dict(_PVX, local_objects=["r"]), True),
+    "local-object-setattr-undeclared-object": (_SETATTR, _SETX, _PVX, False),
+    "local-object-setattr-unlisted-attr": (_SETATTR.replace("r.a", "r.b"), _SETX, dict(_PVX, local_objects=["r"]), False),
+    "rebinding-call": (_REB, _REBX, _PVX, True),
+    "rebinding-call-undeclared": (_REB, dict(funcs=_REBX["funcs"], coercions=_REBX["coercions"]), _PVX, False),
+    "rebinding-call-on-expression": (_REB.replace("out=b", "out=Buf()"), _REBX, _PVX, False),
+}
+for name, (src, extras, entry, ok) in C18CASES.items():
+    d = WORK / ("c18_" + name)
+    d.mkdir(parents=True, exist_ok=True)
+    (d / "m.py").write_text(src)
+    try:
+        g = tr.translate_spec(dict(id="T", source="m.py", module="TGen", link="-", functions=[dict(py="f", gen="f", **entry)], **extras), d)
+        print(f"accepted  {name}" if ok else f"NOT REJECTED {name}:\n{g.text}")
+        bad += 0 if ok else 1
+    except tr.Untranslatable as e:
+        print(f"rejected  {name:28s} {e.reason[:90]}" if not ok else f"NOT ACCEPTED {name}: {e}")
+        bad += 1 if ok else 0
+# ---- C10/C11 additions: `continue` in for loops, `del x`, method overloads, function entry `heap_lists` (idiom list-as-heap-cell)
+_REF = tr.Nom("listref", "nat")
+_HST = tr.Nom("hst", "hst")
+_POPT = tr.Nom("Pop", "pop")
+_HEAP = dict(ref=_REF, elem=Z, locals=["reps"], attrs=["reps"], alloc="h_alloc {0}", get="h_get {0}", append="h_append {0} {1}")
+_HX = dict(attrs={("Pop", "reps"): ("p_reps {0}", Opt(_REF)), ("Pop", "xs"): ("p_xs {0}", List(Z))},
+           funcs={"Pop": dict(code="mkP {xs} {reps}", ty=_POPT, params=[("xs", List(Z)), ("reps", Opt(_REF))])})
+_HE = dict(params=[("p", "p", _POPT)], returns=_POPT, stream=dict(var="st", ty=_HST), heap_lists=_HEAP)
+_HSRC = ("def f(p):\n    if p.reps is None:\n        reps = []\n    else:\n        reps = {RHS}\n    for x in p.xs:\n        reps.append(x)\n    return Pop(xs=p.xs, reps=reps)\n")
+_OVL = dict(methods={("G", "pick"): dict(overloads=[dict(code="pick_z {a}", ty=Z, params=[("a", List(Z))]), dict(code="pick_b {a}", ty=BOOL, params=[("a", List(BOOL))])])},
+            consts={"g": ("tt", tr.Nom("G", "unit"))})
+C10CASES = {
+    "continue-in-for": ("def f(xs):\n    acc = 0\n    for a in xs:\n        if a < 0:\n            continue\n        acc += a\n    return acc\n", {}, dict(params=[("xs", "xs", List(Z))], returns=Z), True),
+    "continue-in-while": ("def f(x):\n    while x > 0:\n        x = x - 1\n        if x == 3:\n            continue\n    return x\n", {}, dict(params=[("x", "x", Z)], returns=Z, while_fuel="fuel"), False),
+    "continue-outside-loop-shape": ("def f(x):\n    if x > 0:\n        continue\n    return x\n", {}, dict(params=[("x", "x", Z)], returns=Z), False),
+    "del-local": ("def f(x):\n    y = x + 1\n    z = y * 2\n    del y\n    return z\n", {}, dict(params=[("x", "x", Z)], returns=Z), True),
+    "del-then-read": ("def f(x):\n    y = x + 1\n    del y\n    return y\n", {}, dict(params=[("x", "x", Z)], returns=Z), False),
+    "del-parameter": ("def f(x):\n    del x\n    return 0\n", {}, dict(params=[("x", "x", Z)], returns=Z), False),
+    "del-subscript": ("def f(xs):\n    del xs[0]\n    return 0\n", {}, dict(params=[("xs", "xs", List(Z))], returns=Z), False),
+    "overload-first": ("def f(xs):\n    return g.pick(xs)\n", _OVL, dict(params=[("xs", "xs", List(Z))], returns=Z), True),
+    "overload-second": ("def f(xs):\n    return g.pick(xs)\n", _OVL, dict(params=[("xs", "xs", List(BOOL))], returns=BOOL), True),
+    "overload-none-matches": ("def f(x):\n    return g.pick(x)\n", _OVL, dict(params=[("x", "x", Z)], returns=Z), False),
+    "heap-copy-then-append": (_HSRC.format(RHS="list(p.reps)"), _HX, _HE, True),
+    "heap-alias-then-append": (_HSRC.format(RHS="p.reps"), _HX, _HE, True),   # accepted, but a DIFFERENT definition (no h_alloc): see below
+    "heap-len-of-reference": (_HSRC.format(RHS="list(p.reps)").replace("reps.append(x)", "reps.append(len(reps))"), _HX, _HE, False),
+    "heap-extend-on-reference": (_HSRC.format(RHS="list(p.reps)").replace("reps.append(x)", "reps.extend([x])"), _HX, _HE, False),
+    "heap-remove-on-reference": (_HSRC.format(RHS="list(p.reps)").replace("reps.append(x)", "reps.remove(x)"), _HX, _HE, False),
+    "heap-subscript-of-reference": (_HSRC.format(RHS="list(p.reps)").replace("reps.append(x)", "reps.append(reps[0])"), _HX, _HE, False),
+    "heap-value-assigned-to-heap-local": (_HSRC.format(RHS="p.xs"), _HX, _HE, False),
+    "heap-or-default": ("def f(p):\n    reps = p.reps or []\n    return Pop(xs=p.xs, reps=reps)\n", _HX, _HE, False),
+    "heap-loop-over-reference-mutating": (_HSRC.format(RHS="list(p.reps)").replace("for x in p.xs:", "for x in reps:"), _HX, _HE, False),
+    "heap-list-of-reference-elsewhere": ("def f(p):\n    if p.reps is None:\n        return 0\n    ys = list(p.reps)\n    return len(ys)\n", _HX, dict(_HE, returns=Z), False),
+    "heap-without-state": (_HSRC.format(RHS="list(p.reps)"), _HX, dict(params=[("p", "p", _POPT)], returns=_POPT, heap_lists=_HEAP), False),
+}
+_heap_texts = {}
+for name, (src, extras, entry, ok) in C10CASES.items():
+    d = WORK / ("c10_" + name)
+    d.mkdir(parents=True, exist_ok=True)
+    (d / "m.py").write_text(src)
+    try:
+        g = tr.translate_spec(dict(id="T", source="m.py", module="TGen", link="-", functions=[dict(py="f", gen="f", **entry)], **extras), d)
+        _heap_texts[name] = g.text
+        print(f"accepted  {name}" if ok else f"NOT REJECTED {name}:\n{g.text}")
+        bad += 0 if ok else 1
+    except tr.Untranslatable as e:
+        print(f"rejected  {name:28s} {e.reason[:90]}" if not ok else f"NOT ACCEPTED {name}: {e}")
+        bad += 1 if ok else 0
+# list(x) is NOT the identity in heap mode: the copy allocates, the alias does not (the acceptance criterion of C11)
+_a, _b = _heap_texts.get("heap-copy-then-append", ""), _heap_texts.get("heap-alias-then-append", "")
+if "h_alloc cell" in _a and "h_get" in _a and "h_alloc cell" not in _b and "h_append" in _a and "h_append" in _b and _a != _b:
+    print("distinct  heap-copy-then-append / heap-alias-then-append generate different definitions (copy allocates, alias does not)")
+else:
+    print("NOT DISTINCT heap copy / alias:\n" + _a + "\n" + _b)
+    bad += 1
 sys.exit(1 if bad else 0)
